@@ -522,6 +522,13 @@ fn check_main(prop: &str, tier: &str) -> i32 {
             }
             extra_viol = r.violations;
         }
+        "C12" => {
+            let r = layerb::run_c12_processes(tier, batch_seed);
+            if let (J::Obj(a), J::Obj(b)) = (&mut extra_cov, r.coverage) {
+                a.extend(b);
+            }
+            extra_viol = r.violations;
+        }
         "C07" => {
             let r = layerb::run_c07_processes(tier, batch_seed);
             if let (J::Obj(a), J::Obj(b)) = (&mut extra_cov, r.coverage) {
